@@ -60,12 +60,63 @@ theorem any_road_of_spans (q : Pos) (n : Nat) (hn : SizeOK n) (hc : q.c = Gen.pr
   rw [hc] at hg ⊢
   exact (groups_road_iff n hn _ hsub _ hg).mpr hspan
 
+/-- the successor satisfies C02's road invariant again -/
+theorem roadWF_after (p q : Pos) (wf : WFBoard p) (col : Color) (hcol : p.toMove = col) (j s : Nat)
+    (haft : After p q j s (own p col) (own q col) (own p col.flip) (own q col.flip))
+    (hs : s < p.cfg.size * p.cfg.size) (hj : 64 ≤ j ∨ j < p.cfg.size * p.cfg.size) : RoadWF q := by
+  have hc2 : col = .white ∨ col = .black := by rw [← hcol]; exact toMove_cases p
+  have hn := wf.size_ok
+  have hmask : ∀ k, k < p.cfg.size * p.cfg.size → q.c.Mask.getLsbD k = true := by
+    intro k hk; rw [haft.c_eq, wf.consts, Mask_bitN _ hn]; simpa using hk
+  have hlt64 : ∀ (x : W) k, x.getLsbD k = true → k < 64 := by
+    intro x k hk
+    apply Classical.byContradiction; intro hge
+    rw [BitVec.getLsbD_of_ge _ _ (by omega)] at hk; cases hk
+  have hown : Sub (own q col) q.c.Mask := by
+    intro k hk
+    rcases haft.upper k hk with h | h | h
+    · exact hmask k (lt_of_mask hn (own_sub_mask p wf col) h)
+    · exact hmask k (by omega)
+    · rcases hj with hj | hj
+      · have := hlt64 _ k hk; omega
+      · exact hmask k (by omega)
+  have hopp : Sub (own q col.flip) q.c.Mask := by
+    intro k hk
+    rcases haft.oupper k hk with h | h
+    · exact hmask k (lt_of_mask hn (own_sub_mask p wf col.flip) h)
+    · rcases hj with hj | hj
+      · have := hlt64 _ k hk; omega
+      · exact hmask k (by omega)
+  have hdisj : own q col &&& own q col.flip = 0#64 := by
+    apply BitVec.eq_of_getLsbD_eq
+    intro k _
+    rw [BitVec.getLsbD_and, BitVec.getLsbD_zero]
+    cases h1 : (own q col).getLsbD k with
+    | false => rfl
+    | true =>
+      cases h2 : (own q col.flip).getLsbD k with
+      | false => rfl
+      | true => exact absurd h2 (fun h => haft.disj k h1 h)
+  have han : q.analyze = some q := by
+    unfold Pos.analyze
+    simp only [haft.wg, haft.bg]
+  refine ⟨by rw [haft.cfg_eq]; exact hn, by rw [haft.c_eq, haft.cfg_eq]; exact wf.consts, ?_, ?_, ?_, han⟩
+  · rcases hc2 with e | e <;> subst e
+    · exact hown
+    · exact hopp
+  · rcases hc2 with e | e <;> subst e
+    · exact hopp
+    · exact hown
+  · rcases hc2 with e | e <;> subst e
+    · exact hdisj
+    · rw [BitVec.and_comm]; exact hdisj
+
 /-- **Winning.** -/
 theorem win_of_spans (p q : Pos) (wf : WFBoard p) (col : Color) (hcol : p.toMove = col) (j s : Nat)
-    (haft : After p q j s (own p col) (own q col)) (hs : s < p.cfg.size * p.cfg.size)
+    (haft : After p q j s (own p col) (own q col) (own p col.flip) (own q col.flip)) (hs : s < p.cfg.size * p.cfg.size)
     (hj : 64 ≤ j ∨ j < p.cfg.size * p.cfg.size)
     (hspan : ∃ i k, Conn p.cfg.size (fun x => (roadBits q col).getLsbD x = true) i k ∧ Spans p.cfg.size i k) :
-    RoadWinFor q col ∧ (groupsOf q col).any (isRoadGroup q.c) = true := by
+    RoadWinFor q col ∧ (groupsOf q col).any (isRoadGroup q.c) = true ∧ RoadWF q := by
   have hc2 : col = .white ∨ col = .black := by rw [← hcol]; exact toMove_cases p
   have hqc : q.c = Gen.precompute p.cfg.size := by rw [haft.c_eq, wf.consts]
   have hg : floodGroups q.c (roadBits q col) = some (groupsOf q col) := by
@@ -87,7 +138,7 @@ theorem win_of_spans (p q : Pos) (wf : WFBoard p) (col : Color) (hcol : p.toMove
         omega
       · omega
   have hany := any_road_of_spans q p.cfg.size wf.size_ok hqc col hg hsub hspan
-  refine ⟨winDetails_of_road q col hc2 hany ?_, hany⟩
+  refine ⟨winDetails_of_road q col hc2 hany ?_, hany, roadWF_after p q wf col hcol j s haft hs hj⟩
   rw [toMove_next p q haft.move_eq, hcol]
 
 /-- a road already on the board ends the game -/
@@ -99,7 +150,7 @@ theorem over_of_spans (p : Pos) (wf : WFBoard p) (col : Color) (hc2 : col = .whi
     rcases hc2 with e | e <;> subst e
     · exact h1
     · exact h2
-  have hany := any_road_of_spans p p.cfg.size wf.size_ok wf.consts col hg (roadBits_sub p wf col) hspan
+  have hany := any_road_of_spans p p.cfg.size wf.size_ok wf.consts col hg (roadBits_sub p wf.toRoadWF col) hspan
   unfold Pos.gameOver
   have hr : p.hasRoad.2 = true := by
     unfold Pos.hasRoad
@@ -124,7 +175,7 @@ theorem fill_cases (basis : Array W) (p : Pos) (wf : WFBoard p) (hh : HeightsOK 
       (slideMap p.c p (own p col &&& ~~~(p.standing ||| p.caps)) used).getLsbD s = true) :
     s < p.cfg.size * p.cfg.size ∧ p.standing.getLsbD s = false ∧
     (((own p col).getLsbD s = true ∧ used.getLsbD s = false) ∨
-     ∃ m q j, p.apply basis m = .ok q ∧ After p q j s (own p col) (own q col) ∧
+     ∃ m q j, m.type ≠ Facts.mtPass ∧ p.apply basis m = .ok q ∧ After p q j s (own p col) (own q col) (own p col.flip) (own q col.flip) ∧
        (64 ≤ j ∨ (j < p.cfg.size * p.cfg.size ∧ used.getLsbD j = false))) := by
   have hn := wf.size_ok
   rcases hfill with h | h
@@ -140,8 +191,8 @@ theorem fill_cases (basis : Array W) (p : Pos) (wf : WFBoard p) (hh : HeightsOK 
       | true =>
         have := wf.kinds_sub s (by rw [BitVec.getLsbD_or, hx]; rfl)
         rw [hemp] at this; cases this
-    obtain ⟨m, q, h1, h2⟩ := place_generic basis p wf hply col hcol s hs hemp hres
-    exact ⟨hs, hst, Or.inr ⟨m, q, 64, h1, h2, Or.inl (Nat.le_refl _)⟩⟩
+    obtain ⟨m, q, h0, h1, h2⟩ := place_generic basis p wf hply col hcol s hs hemp hres
+    exact ⟨hs, hst, Or.inr ⟨m, q, 64, h0, h1, h2, Or.inl (Nat.le_refl _)⟩⟩
   · -- slide map
     unfold slideMap at h
     rw [wf.consts] at h
@@ -166,7 +217,7 @@ theorem fill_cases (basis : Array W) (p : Pos) (wf : WFBoard p) (hh : HeightsOK 
     · simp only [BitVec.getLsbD_and, BitVec.getLsbD_not, BitVec.getLsbD_or, Bool.and_eq_true, Bool.not_eq_true',
         decide_eq_true_eq, Bool.or_eq_false_iff] at h
       obtain ⟨⟨hown, _, hjs, hjc⟩, _, hju⟩ := h
-      obtain ⟨m, q, h1, h2⟩ := slide_generic basis p wf hh hply col hcol j s hs hj hown hjs hjc hss hsc
-      exact Or.inr ⟨m, q, j, h1, h2, Or.inr ⟨neighbours_lt hs hj, hju⟩⟩
+      obtain ⟨m, q, h0, h1, h2⟩ := slide_generic basis p wf hh hply col hcol j s hs hj hown hjs hjc hss hsc
+      exact Or.inr ⟨m, q, j, h0, h1, h2, Or.inr ⟨neighbours_lt hs hj, hju⟩⟩
 
 end C19
